@@ -950,3 +950,139 @@ func helperOf(f *ssa.Function, owner func(name string) bool, depth int) (string,
 	}
 	return via, via != ""
 }
+
+// constTableField: v loads field k of the current element of a range loop over a LOCAL array
+// literal of structs whose field k is a constant in every element (a table-driven rewrite of a
+// sequence of calls with constant arguments). It returns the constants in index order.
+func constTableField(v ssa.Value) ([]int64, bool) {
+	var k int
+	var elemSrc []ssa.Value // the struct values field k is read from
+	switch x := v.(type) {
+	case *ssa.UnOp:
+		if x.Op != token.MUL {
+			return nil, false
+		}
+		fa, ok := x.X.(*ssa.FieldAddr)
+		if !ok {
+			return nil, false
+		}
+		k = fa.Field
+		switch b := fa.X.(type) {
+		case *ssa.Alloc: // the loop variable: every store copies an element in
+			sts := storesTo(b)
+			if len(sts) == 0 {
+				return nil, false
+			}
+			for _, st := range sts {
+				elemSrc = append(elemSrc, st.Val)
+			}
+		case *ssa.IndexAddr:
+			elemSrc = append(elemSrc, b)
+		default:
+			return nil, false
+		}
+	case *ssa.Field:
+		k = x.Field
+		elemSrc = append(elemSrc, x.X)
+	default:
+		return nil, false
+	}
+	var arr *ssa.Alloc
+	for _, e := range elemSrc {
+		var base ssa.Value
+		switch y := e.(type) {
+		case *ssa.Index:
+			base = y.X
+		case *ssa.IndexAddr:
+			base = y.X
+		case *ssa.UnOp:
+			if ia, ok := y.X.(*ssa.IndexAddr); ok && y.Op == token.MUL {
+				base = ia.X
+			}
+		}
+		if ld, ok := base.(*ssa.UnOp); ok && ld.Op == token.MUL {
+			base = ld.X
+		}
+		al, ok := base.(*ssa.Alloc)
+		if !ok || (arr != nil && arr != al) {
+			return nil, false
+		}
+		arr = al
+	}
+	if arr == nil {
+		return nil, false
+	}
+	n, ok := arrayLen(arr.Type())
+	if !ok || n == 0 || n > 64 {
+		return nil, false
+	}
+	if len(storesTo(arr)) > 0 {
+		return nil, false
+	}
+	vals := make([]int64, n)
+	have := make([]bool, n)
+	fieldConst := func(structAddr ssa.Value) (int64, bool) {
+		refs := structAddr.Referrers()
+		if refs == nil {
+			return 0, false
+		}
+		var out int64
+		found := 0
+		for _, r := range *refs {
+			fa, ok := r.(*ssa.FieldAddr)
+			if !ok || fa.Field != k {
+				continue
+			}
+			for _, st := range storesTo(fa) {
+				c, ok := constInt(st.Val)
+				if !ok {
+					return 0, false
+				}
+				out = c
+				found++
+			}
+		}
+		return out, found == 1
+	}
+	for _, r := range *arr.Referrers() {
+		ia, ok := r.(*ssa.IndexAddr)
+		if !ok {
+			continue // whole loads
+		}
+		idx, isC := constInt(ia.Index)
+		if !isC {
+			if len(storesTo(ia)) > 0 {
+				return nil, false
+			}
+			continue
+		}
+		if idx < 0 || idx >= n {
+			return nil, false
+		}
+		if c, ok := fieldConst(ia); ok { // &A[i].f = c
+			vals[idx], have[idx] = c, true
+			continue
+		}
+		for _, st := range storesTo(ia) { // A[i] = *lit
+			ld, ok := st.Val.(*ssa.UnOp)
+			if !ok || ld.Op != token.MUL {
+				return nil, false
+			}
+			lit, ok := ld.X.(*ssa.Alloc)
+			if !ok || len(storesTo(lit)) > 0 {
+				return nil, false
+			}
+			c, ok := fieldConst(lit)
+			if !ok {
+				return nil, false
+			}
+			vals[idx], have[idx] = c, true
+		}
+	}
+	for _, h := range have {
+		if !h {
+			return nil, false
+		}
+	}
+	return vals, true
+}
